@@ -70,4 +70,18 @@ def run(seed=0):
                     raise SystemExit(f"SELFTEST FAILED for op model '{name}': {gv} vs {want}")
     finally:
         Ctx.cur = old
+    # dtype rules of the matmul family (meta tensors do not check them): which ops raise on mixed dtypes, which promote
+    a32, a64 = torch.eye(2), torch.eye(2, dtype=torch.float64)
+    from . import ops_move
+    expect_raise = {"matmul": lambda x, y: x @ y, "linear": lambda x, y: torch.nn.functional.linear(x, y), "mv": lambda x, y: torch.mv(x, y[0]), "dot": lambda x, y: torch.dot(x[0], y[0]),
+                    "addmm": lambda x, y: torch.addmm(x, x, y)}
+    for name, f in expect_raise.items():
+        try:
+            f(a32, a64); raised = False
+        except RuntimeError:
+            raised = True
+        if not raised:
+            raise SystemExit(f"SELFTEST FAILED: torch no longer raises on mixed dtypes in '{name}' (the same-dtype rule of the op model is wrong)")
+    if torch.linalg.solve_triangular(a64, a32, upper=True).dtype != torch.float64 or torch.ger(a32[0], a64[0]).dtype != torch.float64:
+        raise SystemExit("SELFTEST FAILED: solve_triangular / ger dtype promotion")
     return len(CASES)
